@@ -156,6 +156,16 @@ type Limits struct {
 	Stack  int
 }
 
+// vmKey is the exact state of the machine between two command events.
+type vmKey struct {
+	pc    int32
+	cmp   int8
+	sw    int64
+	swSet bool
+	depth int8
+	stack [32]int32
+}
+
 type machine struct {
 	im     *Image
 	env    *env.Env
@@ -166,7 +176,7 @@ type machine struct {
 	cmp    int // latched comparison result, -1 = none
 	sw     int // latched switch value
 	swSet  bool
-	seen   map[string]bool
+	seen   map[vmKey]struct{}
 	probes map[string]int
 }
 
@@ -191,7 +201,7 @@ func (m *machine) event(in *Instr) {
 	}
 	m.tr.Events = append(m.tr.Events, trace.Event{Name: in.Name, Args: args})
 	m.epoch++
-	m.seen = map[string]bool{}
+	clear(m.seen)
 }
 
 func (m *machine) decide(b bool) bool {
@@ -223,7 +233,7 @@ var condIdx = map[string]int{"goto_if_lt": 0, "goto_if_eq": 1, "goto_if_gt": 2, 
 // Run executes the image from the entry label. tops = names that start a new
 // top-level item (falling onto one of them sequentially is a run-off).
 func Run(im *Image, entry string, e *env.Env, tops map[string]bool, lim Limits, probes map[string]int) *trace.Trace {
-	m := &machine{im: im, env: e, tops: tops, cmp: -1, seen: map[string]bool{}, probes: probes}
+	m := &machine{im: im, env: e, tops: tops, cmp: -1, seen: map[vmKey]struct{}{}, probes: probes}
 	pc, ok := m.jump(entry)
 	if !ok {
 		m.tr.Finish = "fault: entry label " + entry + ": " + m.tr.Finish
@@ -258,12 +268,16 @@ func Run(im *Image, entry string, e *env.Env, tops map[string]bool, lim Limits, 
 			m.tr.Finish = fmt.Sprintf("fault: run-off into data directive %s (line %d)", in.Name, in.Line)
 			break
 		}
-		k := fmt.Sprintf("%d|%v|%d|%d|%v", pc, m.stack, m.cmp, m.sw, m.swSet)
-		if m.seen[k] {
+		// exact machine state within one epoch: revisiting it means a command-free cycle
+		k := vmKey{pc: int32(pc), cmp: int8(m.cmp), sw: int64(m.sw), swSet: m.swSet, depth: int8(len(m.stack))}
+		for i, r := range m.stack {
+			k.stack[i] = int32(r)
+		}
+		if _, dup := m.seen[k]; dup {
 			m.tr.Finish = "hang"
 			break
 		}
-		m.seen[k] = true
+		m.seen[k] = struct{}{}
 		sequential = true
 		taken := func(l string) bool {
 			t, ok := m.jump(l)
@@ -310,7 +324,7 @@ func Run(im *Image, entry string, e *env.Env, tops map[string]bool, lim Limits, 
 			} else if len(im.Labels[in.Args[0]]) == 0 {
 				m.event(in) // callee outside the file: opaque, returns
 				pc++
-			} else if len(m.stack) >= lim.Stack {
+			} else if len(m.stack) >= lim.Stack || len(m.stack) >= 32 {
 				m.tr.Finish = "overflow"
 				stop = true
 			} else {
